@@ -14,7 +14,8 @@ BIN_OPS = ['+', '-', '*', '/', '%', '|', '^', '&', '<<', '>>']
 UN_OPS = ['-', '+', '~']
 CASTS = ['int', 'float', 'str']
 
-LEAVES_FULL = ['0', '1', '2', '7', '0x10', '0X1F', '1.5', '2.0', "'a'", '"b"', "'it'", '"\'s"', "'12'", 'B', 'S', 'E.A.value', 'E.C.value']
+LEAVES_FULL = ['0', '1', '2', '7', '0x10', '0X1F', '1.5', '2.0', "'a'", '"b"', "'it'", '"\'s"', "'12'", 'B', 'S', 'E.A.value', 'E.C.value',
+               '0xFFFFFFFFFFFFFFFF', '9007199254740993', '0x7FFFFFFFFFFFFFFF', '1000']
 LEAVES_MID = ['2', '7', '0x10', '1.5', "'a'", '"b"', 'B']
 LEAVES_TINY = ['7', '1.5', "'a'", 'B']
 
@@ -136,15 +137,20 @@ def decode(v):
 def classify(expr: str) -> list:
     """Coarse class of an expression: operator multiset + operand type classes (for finding signatures)."""
     import re
+    if '[module ' in expr:
+        return ['cross-module']
+    expr = expr.split('  [')[0]
     ops = sorted(set(re.findall(r'<<|>>|[-+*/%|^&~]|\b(?:int|float|str)(?=\()', expr)))
     kinds = set()
     for tok in re.findall(r'0[xX][0-9a-fA-F]+|\d+\.\d+|\d+|\'[^\']*\'|"[^"]*"|E\.\w\.value|\b[BS]\b', expr):
         if tok[0] in '"\'':
             kinds.add('str-mixed-quote' if ("'" in tok[1:-1] or '"' in tok[1:-1]) else 'str')
         elif tok.startswith(('0x', '0X')):
-            kinds.add('hex-upper' if tok.startswith('0X') else 'hex')
+            kinds.add('hex-upper' if tok.startswith('0X') else ('hex-64bit' if len(tok) > 12 else 'hex'))
         elif '.' in tok and tok[0].isdigit():
             kinds.add('float')
+        elif tok.isdigit() and len(tok) > 12:
+            kinds.add('int-beyond-2^53')
         elif tok in ('B', 'S') or tok.startswith('E.'):
             kinds.add('ref')
         else:
@@ -236,6 +242,39 @@ def eval_batch(batch):
     return out
 
 
+def cross_module_cases():
+    """One evaluator instance folding several same-shaped modules whose referenced members differ (history dimension)."""
+    from rogw.tranp.errors import Errors
+    from rogw.tranp.transpiler.types import Evaluator
+    import rogw.tranp.syntax.node.definition as defs
+    from mc.tranp.session import Session
+    exprs = ['B + 1', 'B * 2 + C', 'C - B', 'B | 0x10', 'S + S', 'B', 'C % B']
+    bases = [(2, 3, "'s'"), (5, 7, "'t'"), (256, 512, "'u'")]
+    sources = {}
+    for k, (b, c, sv) in enumerate(bases):
+        sources[f'cm{k}'] = 'from enum import Enum\n\nclass F(Enum):\n' + f'\tB = {b}\n\tC = {c}\n\tS = {sv}\n' + ''.join(f'\tX{i} = {e}\n' for i, e in enumerate(exprs))
+    out = []
+    for order in ([0, 1, 2], [2, 0, 1], [1, 2, 0, 1]):
+        s = Session(dict(sources))
+        ev = s.get(Evaluator)
+        for k in order:
+            mod = s.load(f'cm{k}')
+            enum = [n for n in mod.entrypoint.statements if isinstance(n, defs.Enum)][0]
+            values = {v.symbol.domain_name: v.declare.as_a(defs.MoveAssign).value for v in enum.vars}
+            b, c, sv = bases[k]
+            ns = {'B': b, 'C': c, 'S': sv[1:-1], '__builtins__': {}}
+            for i, e in enumerate(exprs):
+                py = py_eval(e, ns)
+                try:
+                    got = ('ok', ev.exec(values[f'X{i}']))
+                except Errors.Error as ex:
+                    got = ('refused', type(ex).__name__)
+                except Exception as ex:  # noqa
+                    got = ('raw', type(ex).__name__)
+                out.append((f'{e}  [module {k} (B={b}, C={c}) evaluated after modules {order[:order.index(k)]} by the same evaluator]', py, got))
+    return out
+
+
 def short(v) -> str:
     try:
         if isinstance(v, int) and not isinstance(v, bool) and abs(v) > 10 ** 40:
@@ -285,6 +324,7 @@ def run(ctx):
     from mc.tranp.session import Session
     Session({'__main__': 'x: int = 0\n'}).load('__main__')
     results = pool.pmap(eval_batch, batches, workers=ctx.workers, rotate=ctx.seed)
+    results.append(cross_module_cases())
     n = nontriv = 0
     outcomes = {}
     agreed = refused = 0
